@@ -37,6 +37,11 @@ def handleMSA (fs : List (List String)) : Option String :=
     let m := splitRows msa
     let ok := rectb m && splitOkb (nat! g) m (idxA.map nat!) (fa.map (· == "1")) (fb.map (· == "1"))
     some ((if ok then "M " else "M! ") ++ rowsStr (refineSplit (nat! g) m (idxA.map nat!) (fa.map (· == "1")) (fb.map (· == "1"))))
+  | [["update"], toks, internal, i2e] =>
+    -- tokens as codes (0 = the gap '-'), internal entries 0 = 'X', k = position k-1
+    let intl : List (List (Option Nat)) := (splitRows internal).map fun r => r.map fun x => if x == 0 then none else some (x - 1)
+    some ((if updateOkb 0 (splitRows toks) intl (splitRows i2e) then "M " else "M! ") ++
+      rowsStr (updateAlignments 0 (splitRows toks) intl (splitRows i2e)))
   | _ => none
 
 end Verif.Driver
